@@ -1765,6 +1765,7 @@ class Compiler:
         self._macros.append(node.extend)
 
         callbacks = []
+        discard = []
         for slot in node.slots:
             key = "__slot_%s" % mangle(slot.name)
             fun = "__fill_%s" % mangle(slot.name)
@@ -1827,6 +1828,10 @@ class Compiler:
 
             callbacks.extend(assignment)
 
+            # A filler that the macro did not take (it defines no such
+            # slot) must not stay behind for a macro used later
+            discard += template("econtext.pop(KEY, None)", KEY=key)
+
         assert self._macros.pop() == node.extend
 
         assignment = self._engine(node.expression, store("__macro"))
@@ -1840,6 +1845,7 @@ class Compiler:
                 "__m(__stream, econtext.copy(), "
                 "rcontext, __i18n_domain, __i18n_context, target_language)"
             ) +
+            discard +
             template("econtext.update(rcontext)")
         )
 
